@@ -341,7 +341,9 @@ MANIFEST = {
             "panics nor over-consumes on any byte stream (C38_read_total).",
     "note": "PARTIAL: the payload level is not a theorem here. serde_json is an oracle (hypothesis of C38_framing); the duration bound is C32's theorem "
             "(this check compares the implementation's read-back duration bit for bit with the model from_seconds(to_seconds d) and evaluates the 1 ppb + 1 unit "
-            "bound in the monitor); equality of plain f64 fields depends on serde_json's float parsing (X cases, monitor only). Reading chosen: snapshots "
+            "bound in the monitor: durations in (-10^9, -2^21] units come back 2 units lower = open known finding KnownClass_C32_roundtrip); equality of "
+            "plain f64 fields depends on serde_json's float parsing (X cases, monitor only): found inexact by 1 ulp with serde_json's default features, "
+            "repaired by commit 'fix: parse JSON floats with round-trip precision' (float_roundtrip feature). Reading chosen: snapshots "
             "whose JSON exceeds 1 MiB (about 2,700+ sources) are written but refused by the reader; C38_framing carries the size hypothesis. "
             "Trusted: Coq kernel+vm_compute, hand-written model, harness, driver.",
     "design_ref": "DESIGN.md 3 C38",
